@@ -121,7 +121,7 @@ PROP = {
         {"name": "C15etcd", "pkg": "./pkg/cluster/", "test": "TestVerifC15Etcd", "timeout_quick": "10m", "timeout_thorough": "30m",
          "go_flags": ["-tags", "verif,verifc15etcd"]},
         {"name": "C15fix", "pkg": "./config/", "test": "TestVerifC15Fix"},
-        {"name": "C15cmd", "pkg": "./cmd/", "test": "TestVerifC15Cmd", "timeout_quick": "10m", "timeout_thorough": "30m"},
+        {"name": "C15cmd", "pkg": "./cmd/", "test": "TestVerifC15Cmd", "timeout_quick": "4m", "timeout_thorough": "10m"},
         {"name": "C15tick", "pkg": "./cmd/", "test": "TestVerifC15Tick", "timeout_quick": "10m", "timeout_thorough": "30m"},
         {"name": "C15loop", "pkg": "./cmd/", "test": "TestVerifC15Loop", "timeout_quick": "10m", "timeout_thorough": "10m"},
     ],
@@ -151,7 +151,14 @@ PROP = {
             "scripts of length<=4 (quick) / <=5 (thorough) for both roles (R 1.5 s, lease 5 s, campaign sent 200 ms before), each leader "
             "script of length<=2 also followed by 10 failures, + random scripts, periods 1-200 s, leases >= 3 periods: calls with their "
             "virtual instants, when/how the syncer's wait is closed and when clusterTicker RETURNS vs Lean tickerRun (exact periods / same-instant reaction are compared THERE only); shared "
-            "ops: one client shared by two elections used concurrently while a reply is stalled. "
+            "ops: one client shared by two elections used concurrently while a reply is stalled. LATE ANSWERS (round-8 seeded mutation): event "
+            "`late:<c|r|x>:<key>:<id>:<d|t>` - the store holds the call's request, the caller's context ENDS (cancelled by the harness = its deadline "
+            "passing: cmd/syncer.go gives every election call a context with a deadline; no clock involved), then the store executes and answers; the call "
+            "either waited for the late answer (d: an ordinary call in the model) or gave up (t: lost-but-applied in the model) - observed, written into "
+            "the op and the replay; the SAME election object is then used on: a leads, one late call, then ALL lists of length<=3 quick / <=4 thorough over "
+            "{resign a, campaign b, campaign a, renew a, tick ttl+1, renew b} (3 x 258 quick) + corpus; every later call must get the store's answer to "
+            "THAT call (model = each event answered by the store at that event; monitors success-without-lease / two-holders / failed-renew-not-reported "
+            "/ success-over-foreign-lease catch a stale answer kept from the abandoned call). "
             "CLUSTER-type lease store (C15): the same event lists (corpus `ctrace`; ALL lists of length<=3 quick / <=4 thorough over {campaign a, campaign b, "
             "renew a, resign a, tick ttl/2, tick ttl+1, lost-but-applied campaign b, slot of the key -> node 0, -> node 1, leader}; generated lists with slot "
             "moves mixed in) through NewRedisCluster with a cluster-type configuration = the REAL cluster client (EVAL routed by the key's slot, GET located "
@@ -275,8 +282,9 @@ PROP = {
         "runCluster (the instance no longer leads; liveness only)",
         "one client connection is shared by all elections of an instance and its registry keep-alive; RedisConn.Do holds its mutex over "
         "send+receive and has no read deadline, so replies cannot be mis-attributed (shared ops exercise concurrent use with a stalled "
-        "reply). A client that abandons a reply without closing the connection (read deadline added naively) is not covered: the double "
-        "stalls on a logical clock, no client-side timeout exists to trip",
+        "reply). An ELECTION that abandons an answer at its context's end and keeps using the same object is covered since session 5 "
+        "(`late` events: a stale answer handed to a later call is caught with a replay); a CLIENT (RedisConn) that abandons a reply on the wire without "
+        "closing the connection is still not: no client-side read deadline exists to trip",
         "the registry keys of redisCluster.Register live under a different prefix and are not modelled",
         "ttl >= 1 s (theorem hypothesis; lease_bounds proves ttl >= 3 for every output of ClusterConfig.fix; cfgfix/leasettl ops tie it)",
     ],
